@@ -129,8 +129,9 @@ func (m *M) Event(e Ev) Obs {
 			continue
 		}
 		if m.AsIs {
-			// known deviation: at most once, never withdraws the host
-			if m.boundaryFired[br.b.ID] {
+			// known deviation: at most once, never withdraws the host; one gate
+			// per host node
+			if m.boundaryFired[br.b.ID] || !m.hostGate[br.r.Node.ID] {
 				continue
 			}
 			m.boundaryFired[br.b.ID] = true
